@@ -2762,13 +2762,15 @@ again:
 	/* otherwise sort the array, just in case */
 	echs_instant_sort(strm->cch, strm->ncch);
 	if (strm->zon) {
-		/* several local times on one instant, one's enough */
+		/* several local times on one instant, one's enough, and
+		 * local times that don't exist come out as instants we may
+		 * have handed out before the refill already */
 		size_t j = 0U;
 
 		for (size_t i = 0U; i < strm->ncch; i++) {
-			if (echs_instant_eq_p(
-				    strm->cch[i],
-				    j ? strm->cch[j - 1U] : last)) {
+			if (!echs_instant_lt_p(
+				    j ? strm->cch[j - 1U] : last,
+				    strm->cch[i])) {
 				continue;
 			}
 			strm->cch[j++] = strm->cch[i];
